@@ -203,6 +203,15 @@ def oracle_c03(rows):
                             fails.append({"row": (r["seed"], r["wallet"]), "seed": r["seed"], "step": idx,
                                           "what": "reservation took output %s that was not free (status %s)"
                                                   % ((a, c, m), None if o is None else o["status"])})
+            if s["op"]["k"] == "init_send" and s["rc"] == [0] and prev is not None and s["extra"].get("sel_inputs"):
+                # (the internal refresh may have confirmed an Unconfirmed record first: judge by the snapshot after)
+                no = outputs_by_key(snap)
+                for a, c, m, _v in s["extra"]["sel_inputs"]:
+                    o = no.get((a, c, m))
+                    if o is None or o["status"] not in (0, 1):
+                        fails.append({"row": (r["seed"], r["wallet"]), "seed": r["seed"], "step": idx,
+                                      "what": "selection put output %s with status %s into a new transaction's context"
+                                              % ((a, c, m), None if o is None else o["status"])})
             cnt = collections.Counter()
             for t in snap["txs"]:
                 if t["slate"] is not None and t["type"] in (1, 2):
@@ -488,6 +497,22 @@ def oracle_c04(rows, equation=True):
                 got = [int(x) for x in row]
                 if got != want:
                     fails.append(_fail(r, idx, "balance figures %s differ from the partition of the records %s" % (got, want)))
+            if k == "refresh" and s["rc"] == [0] and idx > 0:
+                pprev = r["steps"][idx - 1]["snap"]
+                parent = s["op"]["parent"]
+                ptx = {(t["parent"], t["id"]): t for t in pprev["txs"]}
+                for t in snap["txs"]:
+                    p0 = ptx.get((t["parent"], t["id"]))
+                    if p0 is None:
+                        continue
+                    if t["parent"] != parent and p0 != t:
+                        fails.append(_fail(r, idx, "refresh of account %d changed log entry %s of another account"
+                                           % (parent, (t["parent"], t["id"]))))
+                    if t["parent"] == parent and (p0["slate"], p0["type"] in (0,), p0["credited"], p0["debited"]) != \
+                            (t["slate"], t["type"] in (0,), t["credited"], t["debited"]):
+                        fails.append(_fail(r, idx, "refresh of account %d replaced log entry %s: slate/amounts %s -> %s"
+                                           % (parent, (t["parent"], t["id"]),
+                                              (p0["slate"], p0["credited"], p0["debited"]), (t["slate"], t["credited"], t["debited"]))))
             if k == "refresh" and s["op"]["all"] and s["rc"] == [0] and s["op"]["view"]["tip"] >= 0:
                 truth = {(t[0], t[1], t[2]): t[3] for t in s["extra"].get("truth", [])}
                 parent = s["op"]["parent"]
@@ -565,5 +590,11 @@ def oracle_c18(rows):
                     o = po.get((a, c, m))
                     if o is not None and o["status"] == 4:
                         fails.append(_fail(r, idx, "a Reverted output %s was reserved as an input" % ((a, c),)))
+            if k == "init_send" and s["rc"] == [0] and s["extra"].get("sel_inputs"):
+                no = outputs_by_key(snap)
+                for a, c, m, _v in s["extra"]["sel_inputs"]:
+                    o = no.get((a, c, m))
+                    if o is not None and o["status"] == 4:
+                        fails.append(_fail(r, idx, "a Reverted output %s was selected as an input of a new transaction" % ((a, c),)))
             prev = snap
     return fails
